@@ -11,6 +11,7 @@ import ChythonModel.Proofs.C02ReadOk
 import ChythonModel.Proofs.C02Final
 import ChythonModel.Proofs.C02Positional
 import ChythonModel.Proofs.C02Atoms
+import ChythonModel.Proofs.C02Fuel2
 /-!
 # C02 — SMILES write then read is lossless; canonical strings never collide
 
@@ -362,6 +363,22 @@ theorem dfs_fuel_independent (m : Mol) (env : Env) (opts : Opts) (groups : List 
     (m.WF = true → ∀ g, traverse m env opts groups g ≠ .error .fuel) :=
   ⟨fun fuel k s r h => dfsRun_fuel_mono m env opts groups seen fuel k s r h, fun hwf fuel s hp => dfsRun_no_fuel_error hwf fuel s hp,
    fun hwf g => traverse_no_fuel_error hwf g⟩
+
+/-- **writer_never_out_of_fuel**: on a well-formed molecule the writer model never returns its `fuel` error, whatever the
+    style, weights, set orders and draws: the DFS step bound, the BFS pop bound, the cis/trans repair loop (`ctFlipLoop`,
+    potential `|todo| + Σ_{k not done} (2·deg k + 1)`) and the round loop (every round writes at least its start atom) are
+    all sufficient, and `flat`'s depth bound never truncates (`dfs_covers_component`).  So every result of the model is
+    either a text or one of Python's own exceptions — the fuel is a termination device of the Lean definitions only. -/
+theorem writer_never_out_of_fuel (m : Mol) (env : Env) (opts : Opts) (hwf : m.WF = true) :
+    smilesRounds m env opts ≠ .error .fuel ∧ write m env opts ≠ .error .fuel := by
+  refine ⟨smilesRounds_no_fuel_error hwf, fun h => ?_⟩
+  unfold write at h
+  simp only [bind, Except.bind, pure, Except.pure] at h
+  split at h
+  · rename_i e he
+    cases h
+    exact smilesRounds_no_fuel_error hwf he
+  · cases h
 
 /-- **writer_traversal_exact** (all components): for every well-formed molecule and every successful run of `smilesRounds`,
     each round is one DFS run on the atoms not yet written (`RoundsDfs`), `smiles_atoms_order` is the concatenation of the
